@@ -72,17 +72,17 @@ fn k03_text_at<const N: usize>(k: usize) {
 }
 
 #[kani::proof]
-#[kani::unwind(7)]
+#[kani::unwind(3)]
 fn k03_normalizing_hasher_text_len1() {
     k03_text::<1>();
 }
 #[kani::proof]
-#[kani::unwind(7)]
+#[kani::unwind(3)]
 fn k03_normalizing_hasher_text_len2() {
     k03_text::<2>();
 }
 #[kani::proof]
-#[kani::unwind(7)]
+#[kani::unwind(4)]
 fn k03_normalizing_hasher_text_len3() {
     k03_text::<3>();
 }
@@ -92,7 +92,7 @@ fn k03_probe_4_2() {
     k03_text_at::<4>(2);
 }
 #[kani::proof]
-#[kani::unwind(7)]
+#[kani::unwind(5)]
 fn k03_normalizing_hasher_text_len4() {
     k03_text::<4>();
 }
